@@ -276,6 +276,7 @@ let handle_seq c =
     | "put" -> let n = next_bytes c in let d = next_bytes c in ignore (dostep (OpPut (n, d)))
     | "del" -> let n = next_bytes c in ignore (dostep (OpDel n))
     | "stray" -> let n = next_bytes c in ignore (dostep (OpStray n))
+    | "relocate" -> let k = next_n c in ignore (dostep (OpRelocate k))
     | "merge" ->
       let date = next_bytes c in
       let lst = next_blist c in
